@@ -52,6 +52,7 @@ type Contract struct {
 	Allocates   bool
 	ModifiesAll bool
 	MayPanic    bool
+	TrustFrame  bool
 	ImplicitOnly map[string][]string // "checks" clause: implicit-obligation kind -> tags
 	Auto        bool // lemma: also installed as a quantified axiom in the units of its package
 	View        bool // contract on a function of another package, as seen from this package
@@ -110,7 +111,7 @@ type PkgSpec struct {
 }
 
 var clauseKW = map[string]bool{"requires": true, "ensures": true, "modifies": true, "loop": true, "allocates": true,
-	"params": true, "vars": true, "pure": true, "trusted": true, "bounded": true, "assumes": true, "maypanic": true, "checks": true, "callers": true, "coupling": true, "model": true, "cut": true, "running": true, "atcall": true}
+	"params": true, "vars": true, "pure": true, "trusted": true, "bounded": true, "assumes": true, "maypanic": true, "checks": true, "trustframe": true, "callers": true, "coupling": true, "model": true, "cut": true, "running": true, "atcall": true}
 
 var headRe = regexp.MustCompile(`^(func|type|lemma|canary|refine)\s+(.*)$`)
 var tagsRe = regexp.MustCompile(`\[(C[0-9]+(?:\s*,\s*C[0-9]+)*)\]`)
@@ -354,6 +355,9 @@ func ParseContractFile(path, pkgPath string) (*PkgSpec, error) {
 			curClause = c
 		case "maypanic":
 			cur.MayPanic = true
+		case "trustframe":
+			// the modifies clause is what callers assume; it is not checked against the body
+			cur.TrustFrame = true
 		case "checks":
 			// checks <kind>... [tags] : in this unit only implicit obligations of the listed kinds are
 			// obligations (with these tags); every other implicit obligation of the unit is not checked
